@@ -176,7 +176,9 @@ def addrLine (d : Val) (dflt : Val) (p : List String) : String :=
   let ref := getPath d p
   let gets := (variants p).flatMap (fun k => [codeOf ref dflt (getRec d k none), codeOf ref dflt (getRec d k (some dflt))])
   let c := match d with
-    | .dict es => if contains es (joinDots p) then "T" else "F"
+    | .dict es =>
+      if !(p == [] || containsModelled d p) then "?"          -- a list whose repr is not modelled is compared
+      else if contains es (joinDots p) then "T" else "F"
     | _ => "?"
   let pr := match ref with
     | some v => (ofVal v).compress
@@ -355,7 +357,7 @@ def handle (j : Json) : Json :=
     let key : Option DelKey :=
       match k.getObjVal? "s", k.getObjVal? "l", k.getObjVal? "o" with
       | .ok s, _, _ => (str? s).map DelKey.str
-      | _, .ok l, _ => (strList? l).map DelKey.list
+      | _, .ok l, _ => (valList? l).map DelKey.list
       | _, _, .ok _ => some DelKey.other
       | _, _, _ => none
     match key, (arr? (getD j "items")).bind (fun x => x.toList.mapM toItem) with
